@@ -203,6 +203,9 @@ def gen(rng, tier):
         cases.append(["semc %d %d %d" % (p, c, k if tier == "quick" else k * 20)])
     for w in (1, 2, 5):
         cases.append(["cond %d %d" % (w, 20 if tier == "quick" else 400)])
+    # parallel_invoke with one slow function in each position: all must have run at return
+    for n in (2, 3, 4):
+        cases.append(["thr invs %d %d" % (n, 1 if tier == "quick" else 5)])
     # the same ThreadGroup started and joined three times (each round is one hand-over of the model; finished flags are sticky)
     for n in ([1, 4] if tier == "quick" else [1, 2, 4, 7]):
         cases.append(["thr grp3 %d 1" % n])
